@@ -141,7 +141,9 @@ def _class_marks():
     return [out[k] for k in sorted(out)]
 
 
-CLASS_MARKS = _class_marks()
+# the four combining marks that have a canonical decomposition of their own (deprecated tone marks, Greek koronis and
+# dialytika tonos): a mark the font maps may still have to be decomposed inside a base + marks cluster
+CLASS_MARKS = _class_marks() + [0x340, 0x341, 0x343, 0x344]
 # primary composites whose second character is a mark of combining class 0 (Bengali/Oriya/Tamil/... two-part vowels,
 # Myanmar, Balinese ...): (first, second) pairs, from unicodedata
 SS_PAIRS = sorted((a, b) for (a, b) in PRIMARY if U.combining(chr(b)) == 0 and U.category(chr(b)).startswith("M") and U.combining(chr(a)) == 0)[:48]
